@@ -439,7 +439,7 @@ func genEntityOpt(r *vh.Rand, second bool, forcedName string) *entityDecl {
 				return "Type"
 			}
 			if r.Chance(70) {
-				return vh.Pick(r, []string{"Create", "Update", "Archive", "Delete", "Created", "DoThing", "Renamed", "V2Migrated"})
+				return vh.Pick(r, []string{"Create", "Update", "Archive", "Delete", "Created", "DoThing", "Renamed", "V2Migrated", "Do_Thing", "Up_2", "D2", "X_"})
 			}
 			return genIdent(r, 2)
 		}, rawKey, func(s string) string { return snakeKey(strcase.ToLowerCamel(s)) }, lowerKey)
@@ -457,7 +457,7 @@ func genEntityOpt(r *vh.Rand, second bool, forcedName string) *entityDecl {
 			svcNames["default"] = true
 		} else {
 			n := svcNames.fresh(func() string {
-				return vh.Pick(r, []string{"Special", "OtherCommand", "Admin", "Ops", "BulkCommand", "Extra"})
+				return vh.Pick(r, []string{"Special", "OtherCommand", "Admin", "Ops", "BulkCommand", "Extra", "my_cmd", "Batch_2", "ops2"})
 			},
 				func(s string) string { return strings.TrimSuffix(s, "Command") })
 			c.Name = &n
@@ -472,7 +472,7 @@ func genEntityOpt(r *vh.Rand, second bool, forcedName string) *entityDecl {
 		for mk := r.Range(0, 2); mk > 0; mk-- {
 			m := eMethod{Verb: vh.Pick(r, []int{1, 2, 2, 3, 4, 5})}
 			m.Name = methodNames.fresh(func() string {
-				return vh.Pick(r, []string{"DoIt", "Create", "Update", "Archive", "Rename", "Touch", "Bump", "SetName", "Op"}) + vh.Pick(r, []string{"", "", "Foo", "2", "Thing"})
+				return vh.Pick(r, []string{"DoIt", "Create", "Update", "Archive", "Rename", "Touch", "Bump", "SetName", "Op", "do_it", "Do_It", "bump"}) + vh.Pick(r, []string{"", "", "Foo", "2", "Thing", "_x"})
 			}, rawKey)
 			m.Request = genFields(r, 0, 3)
 			if r.Chance(15) {
@@ -1171,6 +1171,11 @@ func runC17(cfg *vh.Config) error {
 			res.Count("compiled_ok")
 			if malformed {
 				res.Fail(vh.Failure{Case: caseNo, Stream: "entity", Sig: "C17 malformed entity (" + kinds[i] + ") accepted", Clause: "tie, not a clause of C17 (the declaration is outside the quantifier): the model of the compiler predicts rejection (link error / walker error) and the real compiler accepted", Input: in, Got: "compiled"})
+				// what it compiled to is still judged against the clauses (an accepted optional primary
+				// key shows as "primary key field is not required")
+				if len(d.Ents) == 1 {
+					oracleC17(res, caseNo, d.Ents[0], out.dump, in)
+				}
 			} else if len(d.Ents) == 1 {
 				oracleC17(res, caseNo, d.Ents[0], out.dump, in)
 			}
